@@ -132,7 +132,7 @@ func (g *Gen) assert(st *State, kind, detail, goal, src string, pos token.Pos) {
 		g.nosafe++
 		return
 	}
-	if g.c != nil && g.c.Partial && kind != "callsite" && kind != "nocall" {
+	if g.c != nil && g.c.Partial && kind != "callsite" && kind != "nocall" && !strings.HasPrefix(kind, "loop") {
 		g.partialSkipped++
 		return
 	}
@@ -153,7 +153,7 @@ func (g *Gen) assert(st *State, kind, detail, goal, src string, pos token.Pos) {
 // cannot be evaluated here (it names a variable that is not in scope at this point any
 // more) is an obligation that fails by name, not a machinery error.
 func (g *Gen) assertExpr(st *State, env *Env, kind, detail string, e *E, src string, pos token.Pos) {
-	if g.c != nil && g.c.Partial && kind != "callsite" && kind != "nocall" {
+	if g.c != nil && g.c.Partial && kind != "callsite" && kind != "nocall" && !strings.HasPrefix(kind, "loop") {
 		g.partialSkipped++
 		return
 	}
@@ -602,6 +602,45 @@ func (g *Gen) loopMods(li *loopInfo) (comps map[string]bool, dirty map[string]bo
 			ks = "Int"
 		}
 		return g.m.compMap(ks, vs)
+	}
+	// ghost assignments attached to call sites: a call or go statement of that callee inside
+	// the loop changes the ghost (over-approximated: any clause for a callee called in the loop)
+	if g.c != nil {
+		inLoop := map[string]bool{}
+		for b := range li.blocks {
+			for _, in := range b.Instrs {
+				switch x := in.(type) {
+				case ssa.CallInstruction:
+					cc := x.Common()
+					n := calleeName(cc)
+					inLoop[n] = true
+					if _, isGo := in.(*ssa.Go); isGo {
+						inLoop["go:"+n] = true
+					}
+					if u, ok := cc.Value.(*ssa.UnOp); ok {
+						if dn := dynFieldName(u); dn != "" {
+							inLoop["field:"+dn] = true
+						}
+					}
+					if p, ok := cc.Value.(*ssa.Parameter); ok {
+						inLoop["param:"+p.Name()] = true
+					}
+				}
+			}
+		}
+		for _, cs := range g.c.Calls {
+			if !inLoop[cs.Callee] {
+				continue
+			}
+			for _, ga := range cs.Ghost {
+				comps[ga.Comp] = true
+				dirty[ga.Comp] = true
+			}
+			for _, ga := range cs.GhostAfter {
+				comps[ga.Comp] = true
+				dirty[ga.Comp] = true
+			}
+		}
 	}
 	var freshVal func(v ssa.Value) bool
 	freshVal = func(v ssa.Value) bool {
